@@ -20,6 +20,16 @@ CLAIMED["C15"] = ("Deductive proof of a two-state generation-stability invariant
          "Trusted: gvc, SMT solvers. Assumed: single goroutine. Four genuine defects found by these obligations were repaired by fix: commits (known_findings.txt).",
          "4.11", CLAIMED["C06"][3])
 
+CLAIMED["C07"] = ("Deductive proof, per call and for every source sequence, predicate/equality outcome and parameter value, of the functional contract of the iterator and stream constructors, combinators and reducers against a ghost source sequence (seq, n, pos) with exact pull accounting (laziness) and sticky end; sources of the library (Slice, Counter, Repeat, Empty) are proved to implement the source protocol that is assumed of caller-supplied iterators; loops carry inductive invariants (Filter, Compact, Chunk, Reduce/Collect, Last's ring buffer).",
+         "Trusted: gvc, SMT solvers. Assumed: the source protocol for caller-supplied iterators/streams (a fixed finite sequence, sticky end, zero value with end/error); callbacks are pure. Functions not yet under contract are listed in the evidence under not_covered_clauses.",
+         "4.7", CLAIMED["C06"][3])
+CLAIMED["C08"] = ("Deductive proof for the in-goroutine stream combinators and reducers: on every path on which the source or a callback fails, the error returned is that very error (ghost lasterr / the callback's result), the value result is the zero value, and the wrapper's abstraction (source position minus buffered items, buffered items themselves) is unchanged for source faults, so a retry continues where it left off; the source protocol allows a fault at every call (arbitrary error, position unchanged), which covers every fault position, kind and sequence.",
+         "Trusted: gvc, SMT solvers. Assumed: the faulting-source protocol; callbacks are pure functions of their arguments. Not covered: the goroutine-backed Batch, Merge, Pipe and parallel.MapStream (fault timing relative to the consumer is a schedule).",
+         "4.8", CLAIMED["C06"][3])
+CLAIMED["C09"] = ("Deductive proof with a typestate ghost (closes) on every stream: Next and Close require closes == 0, every reducer closes the stream it consumes exactly once on every exit path (normal, End, source error, callback error; defer semantics), and every wrapper's Close forwards exactly once to each stream it owns.",
+         "Trusted: gvc, SMT solvers. Assumed: the consumer calls Close on a wrapper at most once and not concurrently with Next (the documented contract). Not covered: Merge, Batch, parallel.MapStream (owners are goroutines). A genuine defect (stream.One never closed its stream) was repaired by a fix: commit.",
+         "4.9", CLAIMED["C06"][3])
+
 NOT_APPLICABLE = {
  "C10": "stream.Pipe: every clause is quantified over goroutine interleavings and the runtime's choice among ready select arms; a sequential contract verifier has no model of several goroutines sharing channels (DESIGN.md section 6).",
  "C11": "stream.Batch: three goroutines, a timer and an unbuffered hand-over; partition, max-wait and 'Close always returns' are schedule and liveness statements, not expressible as per-call contracts (DESIGN.md section 6).",
